@@ -12,11 +12,11 @@ def battery():
     from sidemantic import Dimension, Metric, Model, Relationship
     from sidemantic.core.segment import Segment
 
-    def layer():
+    def layer(edited=False):
         from harness import dbutil
         L = dbutil.fresh_layer()
         names = ["orders", "stores", "items", "regions", "returns", "customers"]     # registration order makes the adjacency order differ at the two ends of the diamond
-        rels = {"orders": [("customers", "many_to_one", "customer_id"), ("stores", "many_to_one", "store_id")], "items": [("orders", "many_to_one", "order_id")],
+        rels = {"orders": [("customers", "many_to_one", "customer_id"), ("stores", "many_to_one", "store_id")], "items": [("orders", "one_to_one" if edited else "many_to_one", "order_id")],
                 "customers": [("regions", "many_to_one", "region_id")], "returns": [("orders", "many_to_one", "order_id")], "regions": [], "stores": [("regions", "many_to_one", "region_id")]}      # orders -> customers -> regions and orders -> stores -> regions: two equally short paths
         for n in names:
             mets = [Metric(name="n", agg="count"), Metric(name="total", agg="sum", sql="amount"), Metric(name="avg_amt", agg="avg", sql="amount"),
@@ -70,6 +70,31 @@ def main():
     dump = "--dump" in sys.argv
     history = "--history" in sys.argv
     layer, queries = battery()
+    if "--edited" in sys.argv or "--edited-fresh" in sys.argv:
+        # a relationship corrected IN PLACE on a used layer, then graph.build_adjacency(): every later compile must equal the compile on a layer
+        # that was built with the corrected relationship from the start (no planning state may survive the rebuild)
+        if "--edited" in sys.argv:
+            L = layer()
+            for q in queries:
+                try:
+                    L.compile(**q)
+                except Exception:
+                    pass
+            rel = [r for r in L.graph.models["items"].relationships if r.name == "orders"][0]
+            rel.type = "one_to_one"
+            L.graph.build_adjacency()
+        else:
+            L = layer(edited=True)
+        for i, q in enumerate(queries):
+            try:
+                sql = L.compile(**q)
+            except Exception as e:
+                sql = "ERROR %s: %s" % (type(e).__name__, e)
+            print("%d\t%s" % (i, hashlib.sha1(sql.encode()).hexdigest()))
+            if dump:
+                print(sql)
+                print("-----")
+        return
     L = layer()
     snapshot = lambda: json.dumps({n: m.model_dump(mode="json") for n, m in L.graph.models.items()}, sort_keys=True, default=str) + json.dumps({n: m.model_dump(mode="json") for n, m in L.graph.metrics.items()}, sort_keys=True, default=str)
     fresh = snapshot()              # the registered definitions before ANY compile / explain call
